@@ -325,8 +325,8 @@ class StateEngine(object):
         https://docs.aws.amazon.com/AmazonCloudWatch/latest/events/CloudWatchEventsandEventPatterns.html
         https://stackoverflow.com/questions/8556398/generate-rfc-3339-timestamp-in-python
         """
-        if not isinstance(execution_detail , dict):  # May be (non JSON) RedisDict
-            execution_detail = dict(execution_detail)
+        # Copy, as the stored dict (or RedisDict) must keep epoch seconds timestamps.
+        execution_detail = dict(execution_detail)
 
         """
         There is an inconsistency in AWS. The DescribeExecution documentation
@@ -339,17 +339,15 @@ class StateEngine(object):
         https://docs.aws.amazon.com/step-functions/latest/dg/cw-events.html#cw-events-execution-succeeded
         illustrates startDate and stopDate as millisecond Timestamps and that
         seems to be the case for real with CW Events too, so we need to
-        convert to millis here. Rather than clone the whole dict just for
-        those two fields we save their original values and copy them back after
-        we broadcast the message.
+        convert to millis here. This is done on a copy of the dict because
+        the stored dict is visible to the REST API (which, for the blocking
+        implementation, serves requests from other threads) whilst the
+        message is being published.
         """
-        saved_startDate = execution_detail["startDate"]
-        saved_stopDate = execution_detail["stopDate"]
-
-        if saved_startDate:
-            execution_detail["startDate"] = int(saved_startDate * 1000)
+        if execution_detail["startDate"]:
+            execution_detail["startDate"] = int(execution_detail["startDate"] * 1000)
         if execution_detail["stopDate"]:
-            execution_detail["stopDate"] = int(saved_stopDate * 1000)
+            execution_detail["stopDate"] = int(execution_detail["stopDate"] * 1000)
 
         """
         Start an OpenTracing trace for the notification.
@@ -380,10 +378,6 @@ class StateEngine(object):
 
             subject = execution_detail["stateMachineArn"] + "." + execution_detail["status"]
             self.event_dispatcher.broadcast(subject, cw_event, carrier_properties=carrier)
-
-        # Copy the original seconds since epoch timestamps back.
-        execution_detail["startDate"] = saved_startDate
-        execution_detail["stopDate"] = saved_stopDate
 
     def start_execution(self, state_machine, start_state, event):
         """
